@@ -15,6 +15,118 @@ def copyArgs (which : Int) (s : BaseSlice) : Int × Int × Int × Int :=
   else if which == 1 then copyArgs_mut_from_mut s
   else copyArgs_const_from_mut s
 
+
+/-! ### value-carrying cases (`asgX`, `asgXL`, `asgvX`, `asgvXL`): array cells are IEEE bit patterns
+(`UInt64`, complex = pair), moved by the model as opaque values; compared bit for bit (NaNs canonicalised
+on both sides: payload-agnostic).  Contents are generated from `(mode, seed, which, i)` exactly as in
+`harness/c04.cpp` (`content<T>`). -/
+
+def pool : Array UInt64 := #[
+  0x0000000000000000, 0x8000000000000000, 0x0000000000000001, 0x8000000000000001,
+  0x000fffffffffffff, 0x800fffffffffffff, 0x0010000000000000, 0x8010000000000000,
+  0x7fefffffffffffff, 0xffefffffffffffff, 0x7ff0000000000000, 0xfff0000000000000,
+  0x7ff8000000000000, 0xfff8000000000001, 0x7ff0000000000001, 0x7ff4000000abcdef,
+  0x3ff0000000000000, 0xbff0000000000000, 0x3ff0000000000001, 0x3fefffffffffffff,
+  0x01a56e1fc2f8f359, 0x3c670ef54646d497, 0x3e45798ee2308c3a, 0x4197d78400000000,
+  0x54b249ad2594c37d, 0xd4b249ad2594c37d, 0x4330000000000000, 0x4340000000000001,
+  0x3fb999999999999a, 0x401e000000000000, 0xc059000000000000, 0x0008000000000000]
+
+def mix64 (z : UInt64) : UInt64 :=
+  let z := (z ^^^ (z >>> 30)) * 0xbf58476d1ce4e5b9
+  let z := (z ^^^ (z >>> 27)) * 0x94d049bb133111eb
+  z ^^^ (z >>> 31)
+
+def hash2 (seed i : UInt64) : UInt64 :=
+  mix64 (seed * 0x9e3779b97f4a7c15 + i * 0xd1b54a32d192ed03 + 0x632be59bd9b4e019)
+
+/-- 1/4 special values of the pool, 3/4 arbitrary 64-bit patterns -/
+def valbits (seed i : UInt64) : UInt64 :=
+  let h := hash2 seed i
+  if h &&& 3 == 0 then pool.getD ((h >>> 2) % pool.size.toUInt64).toNat 0 else h
+
+/-- long runs of +0 / -0 (37 cells each) with 1/16 other values sprinkled in -/
+def zerorun (seed i : UInt64) : UInt64 :=
+  let h := hash2 seed i
+  if h &&& 15 == 0 then valbits (seed + 77) i
+  else if (i / 37 + seed) &&& 1 == 1 then 0x8000000000000000 else 0
+
+def cell (mode : Int) (seed i : UInt64) : UInt64 := if mode == 2 then zerorun seed i else valbits seed i
+
+/-- one array cell: the bit patterns of its (real, imaginary) parts; `im = 0` for real arrays -/
+structure Elt where
+  re : UInt64
+  im : UInt64
+deriving Inhabited
+
+def fbits (i : Int) : UInt64 := (Float.ofInt i).toBits
+
+def content (cplx : Bool) (mode : Int) (seed : UInt64) (which : UInt64) (i : Nat) : Elt :=
+  if mode == 0 then
+    if which == 0 then ⟨fbits i, if cplx then fbits (-(i : Int)) else 0⟩
+    else ⟨fbits (-1 - (i : Int)), if cplx then fbits (1 + (i : Int)) else 0⟩
+  else
+    let s := seed * 2 + which
+    if cplx then ⟨cell mode s (2 * i.toUInt64), cell mode s (2 * i.toUInt64 + 1)⟩ else ⟨cell mode s i.toUInt64, 0⟩
+
+def mkArr (cplx : Bool) (mode : Int) (seed which : UInt64) (n : Nat) : Array Elt :=
+  (Array.range n).map (content cplx mode seed which)
+
+def canonB (b : UInt64) : UInt64 :=
+  if (b &&& 0x7ff0000000000000 == 0x7ff0000000000000) && (b &&& 0x000fffffffffffff != 0) then 0x7ff8000000000000 else b
+
+def fmtB (b : UInt64) : String :=
+  let b := canonB b
+  "b" ++ String.ofList ((List.range 16).map (fun i => hexChar ((b >>> (4 * (15 - i)).toUInt64) &&& 0xF)))
+
+def parseB (s : String) : Option UInt64 :=
+  match s.toList with
+  | 'b' :: ds => if ds.length ≠ 16 then none else ds.foldlM (fun (acc : UInt64) c => (hexDigit c).map (fun d => acc * 16 + d)) 0
+  | _ => none
+
+def fmtElts (cplx : Bool) (a : Array Elt) : String :=
+  a.foldl (fun s e => s ++ " " ++ fmtB e.re ++ (if cplx then " " ++ fmtB e.im else "")) (toString a.size)
+
+def digestElts (cplx : Bool) (a : Array Elt) : String :=
+  let cs := a.foldl (fun (cs : UInt64) e =>
+    let cs := cs * 0x100000001b3 + canonB e.re + 1
+    if cplx then cs * 0x100000001b3 + canonB e.im + 1 else cs) 0xcbf29ce484222325
+  s!"{a.size} {cs}"
+
+def outElts (big cplx : Bool) (r : Except String (Array Elt)) : String :=
+  match r with
+  | .ok a => if big then digestElts cplx a else fmtElts cplx a
+  | .error _ => "ERR"
+
+def asgX (big : Bool) (args : List String) : Option String :=
+  match args with
+  | [cplx, mode, seed, n, d1, d2, dm, same, n2, s1, s2, sm, _via] => do
+    let cplx := (← parseI cplx) == 1; let mode ← parseI mode; let seed := (← seed.toNat?).toUInt64
+    let n ← parseI n; let n2 ← parseI n2; let same ← parseI same
+    let x := mkArr cplx mode seed 0 n.toNat
+    let other := mkArr cplx mode seed 1 n2.toNat
+    let srcArr := if same == 1 then x else other
+    let ns := if same == 1 then n else n2
+    match BaseSlice.ctor n (← parseI d1) (← parseI d2) (← parseI dm), BaseSlice.ctor ns (← parseI s1) (← parseI s2) (← parseI sm) with
+    | .ok d, .ok s => some (outElts big cplx (assignSliceA x srcArr d s))
+    | _, _ => some "ERR"
+  | _ => none
+
+def asgvX (big : Bool) (args : List String) : Option String :=
+  match args with
+  | [cplx, mode, seed, n, d1, d2, dm, kind, len, sre, sim] => do
+    let cplx := (← parseI cplx) == 1; let mode ← parseI mode; let seed := (← seed.toNat?).toUInt64
+    let n ← parseI n; let kind ← parseI kind; let len ← parseI len
+    let sc : Elt := ⟨← parseB sre, ← parseB sim⟩
+    let x := mkArr cplx mode seed 0 n.toNat
+    match BaseSlice.ctor n (← parseI d1) (← parseI d2) (← parseI dm) with
+    | .error _ => some "ERR"
+    | .ok d =>
+      if kind == 0 then some (outElts big cplx (.ok (fillA x d sc)))
+      else
+        let rhs := mkArr cplx mode seed 1 len.toNat
+        some (outElts big cplx (if kind == 2 then assignListA x d rhs.toList else assignArrayA x d rhs))
+  | _ => none
+
 def h04 : List String → Option String
   | ["slice", n, i1, i2, m] => do
     let r := slice (← parseI n) (← parseI i1) (← parseI i2) (← parseI m)
@@ -59,6 +171,10 @@ def h04 : List String → Option String
         match r with
         | .ok r => some (dumpArr r)
         | .error _ => some "ERR"
+  | "asgX" :: args => asgX false args
+  | "asgXL" :: args => asgX true args
+  | "asgvX" :: args => asgvX false args
+  | "asgvXL" :: args => asgvX true args
   | _ => none
 
 end Dsp.Driver
